@@ -227,7 +227,7 @@ fn font_raw(small: bool) -> BoxedStrategy<FontRaw> {
         metrics_raw(),
         any::<bool>(),
         0u8..3,
-        proptest::collection::vec((0u8..16, proptest::collection::vec(any::<u8>(), 1..24)), 0..4),
+        proptest::collection::vec((prop_oneof![1 => 0u8..16, 1 => 0u8..N_EXTRA_TAGS], proptest::collection::vec(any::<u8>(), 1..24)), 0..4),
         0u8..12,
         prop::bool::weighted(0.1),
         0u8..48,
@@ -569,6 +569,23 @@ const EXTRA_TAGS: [&[u8; 4]; 16] = [
     b"hmtX",
 ];
 
+/// tags the font model builds itself (an extra table must not collide with them)
+const STRUCTURAL_TAGS: [&[u8; 4]; 13] =
+    [b"cmap", b"head", b"hhea", b"hmtx", b"maxp", b"name", b"OS/2", b"post", b"glyf", b"loca", b"CFF ", b"CFF2", b"DSIG"];
+
+/// tag of an extra table: the 16 hand-picked ones first (selectors 0..16 keep their meaning),
+/// then every other tag of the WOFF2 known-tag list (each has its own 6-bit directory index)
+fn extra_tag(sel: u8) -> Tag {
+    let mut all: Vec<Tag> = EXTRA_TAGS.iter().map(|t| **t).collect();
+    for t in w2::KNOWN_TAGS.iter() {
+        if !all.contains(*t) && !STRUCTURAL_TAGS.contains(t) {
+            all.push(**t);
+        }
+    }
+    all[sel as usize % all.len()]
+}
+const N_EXTRA_TAGS: u8 = 64;
+
 fn resolve_metrics(m: &MetricsRaw, glyphs: Option<&[Glyph]>, n: usize) -> (Vec<(u16, i16)>, usize, u8) {
     let nhm = match m.nhm_sel {
         0 => 1,
@@ -703,7 +720,7 @@ fn build_font(b: &mut Built, f: &FontRaw, shared_misc: Option<(&Member, u8)>) ->
     }
     let mut seen: BTreeSet<Tag> = tables.iter().map(|t| b.dtables[*t].tag).collect();
     for (sel, data) in &f.extras {
-        let tag = *EXTRA_TAGS[*sel as usize % EXTRA_TAGS.len()];
+        let tag = extra_tag(*sel);
         if seen.insert(tag) {
             tables.push(push(b, tag, data.clone(), DKind::Plain));
         }
@@ -1468,6 +1485,30 @@ fn check_triplet_row(item: u64, rec: &mut Rec) -> CaseResult {
 
 /// Fonts at the upper end of the glyph-count range (the bbox bitmap has
 /// 4*floor((numGlyphs+31)/32) bytes): a few real glyphs at both ends, empty glyphs between.
+/// Cases of the ordinary generator in which the font carries a plain table for EVERY tag of the
+/// known-tag list beyond the structural ones, each with its own content; the directory is written
+/// with 6-bit indices only, explicit tags only, or the generated mix. The reconstructed font must
+/// serve every table under its own tag (a wrong entry anywhere in the decoder's tag list shows).
+fn known_tags_strategy() -> impl Strategy<Value = Case> {
+    (case_strategy(), 0u8..3).prop_map(|(mut case, form)| {
+        case.font.extras = (0..N_EXTRA_TAGS)
+            .map(|sel| {
+                let t = extra_tag(sel);
+                let mut d = t.to_vec();
+                d.push(sel);
+                d.extend_from_slice(&t);
+                (sel, d)
+            })
+            .collect();
+        match form {
+            0 => case.enc.explicit_mask = 0,
+            1 => case.enc.explicit_mask = u32::MAX,
+            _ => {}
+        }
+        case
+    })
+}
+
 fn check_glyph_count(item: u64, rec: &mut Rec) -> CaseResult {
     if item == 9 {
         return check_short_to_long(rec);
@@ -1845,6 +1886,8 @@ impl Property for C11 {
         ctx.enumerate("uintbase128", n, false, check_base128_item);
         ctx.enumerate("triplet-rows", 256, true, check_triplet_row);
         ctx.enumerate("glyph-count-boundaries", 10, true, check_glyph_count);
+        let nk = ctx.cases(48, 2_000);
+        ctx.section("known-tags", nk, known_tags_strategy(), |c, rec| check_case(c, rec));
         let n = fixture_items().len() as u64;
         ctx.enumerate("fixtures", n, true, check_fixture);
     }
